@@ -480,6 +480,30 @@ Definition placement_ok (spec observed : list N) : bool := same_set observed spe
 Definition ordered_ok (g : ring N) (t : Z) (iter ordered : list N) : bool :=
   list_eqb ordered (filter (fun x => mem x iter) (uniq (ring_range g t))).
 
+(* the remaining property predicates of the correspondence driver, on the observed views of one
+   replica set: [len] = len(), [iter] = into_iter(), [nth] = nth(k) for k = 0.., [choose] = choose
+   for every scripted index, [cf] = choose_filtered with predicate [cfpred], [opsl] = interleavings
+   of next()/nth(n) with what they yielded, [ep] = get_token_endpoints; and precomputed-or-not *)
+Fixpoint olist_eqb (a b : list (option N)) : bool :=
+  match a, b with
+  | [], [] => true
+  | x :: a', y :: b' => oeqb x y && olist_eqb a' b'
+  | _, _ => false
+  end.
+Definition views_ok (len : nat) (iter : list N) (nth choose : list (option N)) (cf : option N)
+    (cfpred : N -> bool) (opsl : list (list iop * list (option N))) (ep : option (list N)) : bool :=
+  (len =? List.length iter)%nat && nodupb iter &&
+  olist_eqb nth (map (nth_error iter) (seq 0 (List.length nth))) &&
+  (List.length choose =? len)%nat &&
+  forallb (fun o => match o with Some x => mem x iter | None => false end) choose &&
+  match cf with
+  | Some x => mem x iter && cfpred x
+  | None => forallb (fun x => negb (cfpred x)) iter
+  end &&
+  forallb (fun p => olist_eqb (snd p) (list_run (fst p) iter)) opsl &&
+  match ep with Some l => same_set l iter | None => true end.
+Definition precomputed_ok (not_precomputed iter : list N) : bool := same_set not_precomputed iter.
+
 (* tokens of the global ring all distinct / distinct inside every datacenter *)
 Definition tokens_distinct (g : ring N) : bool := sorted_strictb g.
 Definition dc_tokens_distinct (dcf : N -> option N) (g : ring N) : bool :=
